@@ -16,6 +16,16 @@ echo "|---|---|---|---|---|"
 } > $OUT
 for f in mutants/*.diff; do
   b=$(basename $f .diff); c=$(echo $b | cut -c1-3 | tr a-z A-Z)
+  case $b in equivalent-*)
+    # behaviour-preserving refactors: every check of the touched module must stay silent
+    if grep -q "format_inspector.py" $f; then CS="C01 C02 C03 C05 C06 C07"; else CS="C12 C13"; fi
+    for c in $CS; do
+      R=$(tools/mutant.sh /verif/$f $c)
+      rc=$(echo "$R" | sed -n 's/.*exit=\([0-9]*\).*/\1/p')
+      echo "| $b | hand-written, behaviour-preserving | $c | $rc (expected 0) | $([ "$rc" = 0 ] && echo silent || echo FALSE-ALARM) |" >> $OUT
+    done
+    continue;;
+  esac
   R=$(tools/mutant.sh /verif/$f $c)
   rc=$(echo "$R" | sed -n 's/.*exit=\([0-9]*\).*/\1/p'); cls=$(echo "$R" | sed -n 's/.*  class \([^ ]*\) .*/\1/p' | head -1)
   echo "| $b | hand-written | $c | $rc | $cls |" >> $OUT
@@ -37,5 +47,5 @@ for d in seeded/*/; do
   echo "| seeded/$id | independent sub-agent | $c | $rc | $cls |" >> $OUT
 done
 echo >> $OUT
-echo "Missed: $(grep -c '| 0 |' $OUT); harness errors: $(grep -c '| 2 |' $OUT); patch did not apply: $(grep -c '|  |' $OUT); detected: $(grep -c '| 1 |' $OUT)." >> $OUT
+echo "False alarms on behaviour-preserving refactors: $(grep -c 'FALSE-ALARM' $OUT). Missed: $(grep -c '| 0 |' $OUT); harness errors: $(grep -c '| 2 |' $OUT); patch did not apply: $(grep -c '|  |' $OUT); detected: $(grep -c '| 1 |' $OUT)." >> $OUT
 tail -1 $OUT
